@@ -536,7 +536,10 @@ Inductive gstep : screen -> screen -> Prop :=
   | g_unlisten : forall s, gstep s (set_listening false (set_fds (remove_fd LISTEN_FD (s_allfds s)) (s_maxfd s) s))
   | g_add : forall pre po s, gstep s (add_conn pre po s)
   | g_hook : forall k s c, live s k = Some c -> l_new (c_life c) = 0%nat -> gstep s (run_new_hook k s)
-  | g_dead : forall s, gstep s (dead_conn s).
+  | g_dead : forall s, gstep s (dead_conn s)
+  | g_listening : forall v s, gstep s (set_listening v s)
+  | g_initfds : forall v m s, s_conns s = [] -> gstep s (set_fds v m s)
+  | g_dropfd : forall s, gstep s (set_fds (remove_fd (fd_of (length (s_conns s))) (s_allfds s)) (s_maxfd s) s).
 
 Inductive reach : screen -> screen -> Prop :=
   | r_refl : forall s, reach s s
@@ -609,6 +612,9 @@ Proof.
         -- rewrite nth_error_app2 in Hc by auto. destruct (j - length (s_conns s))%nat as [|n].
            ++ simpl in Hc. inversion Hc; subst c. simpl in Hf. discriminate.
            ++ simpl in Hc. destruct n; discriminate.
+  - exact I.
+  - exact I.
+  - exact I.
 Qed.
 
 Lemma reach_inv : forall s s', reach s s' -> inv s -> inv s'.
@@ -683,8 +689,10 @@ Proof.
   intros. unfold shutdown_server.
   assert (R : reach s0 (fold_left shutdown_one (s_order x) x)).
   { apply G_fold; auto. intros y j Hy. eapply (G_k j); [|exact Hy]. fin. }
-  destruct (s_listening (fold_left shutdown_one (s_order x) x)); auto.
-  eapply r_step; [exact R | apply g_unlisten].
+  unfold shutdown_sockets. destruct (s_listening (fold_left shutdown_one (s_order x) x)).
+  - eapply r_step; [eapply r_step; [exact R | apply g_unlisten] | apply g_pending].
+  - destruct (s_pending (fold_left shutdown_one (s_order x) x)); auto.
+    eapply r_step; [eapply r_step; [eapply r_step; [exact R | apply g_dropfd] | apply g_dead] | apply g_pending].
 Qed.
 
 Lemma G_cleanup : forall s0 x, reach s0 x -> reach s0 (screen_cleanup x).
@@ -742,8 +750,8 @@ Qed.
 
 Lemma G_accept_or_fail : forall d pre po s0 x, reach s0 x -> reach s0 (accept_or_fail d pre po x).
 Proof.
-  intros d pre po s0 x H. unfold accept_or_fail. destruct d; try (apply G_accept; auto).
-  eapply r_step; [exact H | apply g_dead].
+  intros d pre po s0 x H. unfold accept_or_fail. destruct d; try (apply G_accept; auto; fail);
+    (eapply r_step; [exact H | apply g_dead]).
 Qed.
 
 Lemma G_client_loop : forall rd s0 x, reach s0 x -> reach s0 (client_loop rd x).
@@ -752,12 +760,22 @@ Proof.
   repeat dm; auto. apply G_message; auto.
 Qed.
 
-Lemma G_check_fds : forall s0 x, reach s0 x -> reach s0 (check_fds x).
+Lemma G_check_fds_listen : forall s0 x, reach s0 x -> reach s0 (check_fds_listen x).
 Proof.
-  intros. unfold check_fds.
+  intros. unfold check_fds_listen.
   destruct (if s_listening x then s_pending x else []) as [|[[d pre] po] rest].
   - dm; auto. apply G_client_loop; auto.
   - assert (reach s0 (accept_or_fail d pre po (set_pending rest x))).
+    { apply G_accept_or_fail. eapply r_step; [exact H | apply g_pending]. }
+    destruct d; auto; dm; auto; apply G_client_loop; auto.
+Qed.
+
+Lemma G_check_fds : forall s0 x, reach s0 x -> reach s0 (check_fds x).
+Proof.
+  intros. unfold check_fds.
+  destruct (if s_listening x then [] else s_pending x) as [|[[d pre] po] rest].
+  - apply G_check_fds_listen; auto.
+  - assert (reach s0 (accept_or_fail d pre po (set_pending [] x))).
     { apply G_accept_or_fail. eapply r_step; [exact H | apply g_pending]. }
     dm; auto. apply G_client_loop; auto.
 Qed.
@@ -772,8 +790,9 @@ Lemma G_step : forall o s0 x, reach s0 x -> reach s0 (step x o).
 Proof.
   intros o s0 x H. unfold step. destruct (s_hung x || s_cleaned x); auto.
   destruct o.
-  - apply G_accept_or_fail; auto.
-  - eapply r_step; [exact H | apply g_pending].
+  - destruct (if s_listening x then [] else s_pending x); [apply G_accept_or_fail; auto|].
+    eapply (G_k 0%nat); [|exact H]. fin.
+  - destruct (s_listening x); auto. eapply r_step; [exact H | apply g_pending].
   - eapply (G_k k); [|exact H]. fin.
   - eapply (G_k k); [|exact H]. fin.
   - apply G_events; auto.
@@ -788,6 +807,9 @@ Proof.
   - eapply r_step; [exact H | apply g_faults].
   - apply G_shutdown; auto.
   - apply G_cleanup; auto.
+  - assert (U : reach s0 (set_unmod true x)) by (eapply (G_k 0%nat); [|exact H]; fin).
+    destruct (s_conns x) eqn:Ec; auto. destruct (s_pending x); auto. destruct (s_listening x); auto.
+    eapply r_step; [eapply r_step; [eapply r_step; [exact H | apply g_pending] | apply g_initfds; exact Ec] | apply g_listening].
 Qed.
 
 Lemma reach_run_from : forall ops s0 x, reach s0 x -> reach s0 (fold_left step ops x).
@@ -920,7 +942,8 @@ Lemma shutdown_frees_all : forall s, inv s ->
 Proof.
   intros s I Hh k.
   assert (Hh1 : s_hung (fold_left shutdown_one (s_order s) s) = false).
-  { unfold shutdown_server in Hh. destruct (s_listening (fold_left shutdown_one (s_order s) s)); auto. }
+  { unfold shutdown_server, shutdown_sockets in Hh. destruct (s_listening (fold_left shutdown_one (s_order s) s)); auto.
+    destruct (s_pending (fold_left shutdown_one (s_order s) s)); auto. }
   assert (F : freed_at (fold_left shutdown_one (s_order s) s) k).
   { destruct (fold_clients shutdown_one R_shutdown_one0 (fun _ => True) (fun _ _ H => H))
       with (P := freed_at) (Q := fun (_ : screen) (_ : nat) => True) (l := s_order s) (s := s) as [F1 F2]; auto.
@@ -929,7 +952,15 @@ Proof.
     - destruct (in_dec Nat.eq_dec k (s_order s)) as [Hin|Hn].
       + apply F1; auto.
       + unfold freed_at. rewrite F2 by auto. apply not_in_order_freed; auto. }
-  unfold shutdown_server. destruct (s_listening (fold_left shutdown_one (s_order s) s)); auto.
+  unfold shutdown_server, shutdown_sockets. destruct (s_listening (fold_left shutdown_one (s_order s) s)); auto.
+  destruct (s_pending (fold_left shutdown_one (s_order s) s)); auto.
+  (* the inetd descriptor that was never handed over: closed here, a record that is already gone *)
+  unfold freed_at in *. unfold get, dead_conn in *. simpl.
+  destruct (Nat.lt_ge_cases k (length (s_conns (fold_left shutdown_one (s_order s) s)))) as [Hlt|Hge].
+  - rewrite nth_error_app1 by auto. exact F.
+  - rewrite nth_error_app2 by auto.
+    destruct (k - length (s_conns (fold_left shutdown_one (s_order s) s)))%nat as [|n]; simpl; auto.
+    destruct n; simpl; auto.
 Qed.
 
 (* ------------------------------------------------------------------ no teardown ever blocks *)
@@ -1281,6 +1312,12 @@ Proof.
       * simpl in Hc. inversion Hc; subst c. assert (j = length (s_conns s)) by lia. subst j.
         simpl. split; auto. intros; discriminate.
       * simpl in Hc. destruct n; discriminate.
+  - (* rfbInitSockets before any connection exists *)
+    intros j c Hc. unfold get in Hc. simpl in Hc. rewrite H in Hc. destruct j; discriminate.
+  - (* FD_CLR of a descriptor number no record has *)
+    intros j c Hc. destruct (I j c Hc) as [F1 F2]. split; auto.
+    intros A B. destruct (F2 A B) as [Hin Hle]. simpl. split; auto.
+    apply in_remove_fd. split; auto. intro Heq. apply fd_of_inj in Heq. apply get_lt in Hc. simpl in Hc. lia.
 Qed.
 
 Lemma reach_fd : forall s s', reach s s' -> fd_inv s -> fd_inv s'.
@@ -1737,15 +1774,15 @@ Qed.
 Theorem nonblock_failure_outcome : forall cfg ops pre po,
   let s0 := run cfg ops in
   let s := run cfg (ops ++ [OAccept DNonblock pre po]) in
-  s_cleaned s0 = false ->
+  s_cleaned s0 = false -> (if s_listening s0 then [] else s_pending s0) = [] ->
   (exists c, get s (length (s_conns s0)) = Some c /\ l_freed (c_life c) = true /\ l_close (c_life c) = 1%nat /\
              l_new (c_life c) = 0%nat /\ l_gone (c_life c) = 0%nat /\ p_res (c_proto c) = [] /\ c_leak c = []) /\
   s_ref s = s_ref s0 /\ s_scaled s = s_scaled s0 /\ s_order s = s_order s0 /\
   s_allfds s = s_allfds s0 /\ s_maxfd s = s_maxfd s0 /\ s_ioc s = s_ioc s0 /\
   (forall j c, get s0 j = Some c -> get s j = Some c).
 Proof.
-  intros cfg ops pre po s0 s Hc. unfold s. rewrite run_app. simpl. fold s0. unfold step.
-  rewrite (never_blocks cfg ops : s_hung s0 = false), Hc. simpl. split; [|repeat split; auto].
+  intros cfg ops pre po s0 s Hc Hw. unfold s. rewrite run_app. simpl. fold s0. unfold step.
+  rewrite (never_blocks cfg ops : s_hung s0 = false), Hc, Hw. simpl. split; [|repeat split; auto].
   - eexists. split; [unfold get, dead_conn; simpl; rewrite nth_error_app2, Nat.sub_diag by auto; reflexivity|].
     simpl. repeat split; auto.
   - intros j c Hg. unfold get, dead_conn. simpl. rewrite nth_error_app1; auto. apply nth_error_Some. unfold get in Hg. congruence.
@@ -1799,6 +1836,23 @@ Lemma nonblock_listen_nonvacuous :
   length (s_conns s) = 2%nat /\ s_ref s = 0%Z /\
   exists c, get s 1%nat = Some c /\ l_freed (c_life c) = true /\ l_close (c_life c) = 1%nat /\ l_new (c_life c) = 0%nat.
 Proof. vm_compute. repeat split. eexists. repeat split. Qed.
+
+(* the inetd route: the descriptor handed over at the first rfbCheckFds belongs to its client record and is
+   closed exactly once, whether the peer goes away or the server is shut down with it open; a descriptor
+   that was never handed over is closed exactly once by rfbShutdownSockets *)
+Lemma inetd_witnesses :
+  (let s := run cfg0 ([OInetd DAccept ver38 true; OPe; OPeerClose 0; OPe; OShutdown]) in
+   s_ref s = 0%Z /\ exists c, get s 0%nat = Some c /\ l_freed (c_life c) = true /\ l_close (c_life c) = 1%nat /\
+                              l_gone (c_life c) = 1%nat /\ c_leak c = []) /\
+  (let s := run cfg0 ([OInetd DAccept ver38 true; OPe; OShutdown]) in
+   s_ref s = 0%Z /\ exists c, get s 0%nat = Some c /\ l_freed (c_life c) = true /\ l_close (c_life c) = 1%nat /\
+                              l_gone (c_life c) = 1%nat) /\
+  (let s := run cfg0 ([OInetd DAccept ver38 true; OShutdown; OPe]) in
+   s_ref s = 0%Z /\ length (s_conns s) = 1%nat /\
+   exists c, get s 0%nat = Some c /\ l_freed (c_life c) = true /\ l_close (c_life c) = 1%nat /\ l_new (c_life c) = 0%nat) /\
+  (let s := run cfg0 ([OInetd DNonblock ver38 true; OPe; OShutdown]) in
+   s_ref s = 0%Z /\ exists c, get s 0%nat = Some c /\ l_freed (c_life c) = true /\ l_close (c_life c) = 1%nat /\ l_new (c_life c) = 0%nat).
+Proof. vm_compute. repeat split; eexists; repeat split. Qed.
 
 Lemma idle_nonvacuous :
   let s := run cfg0 ([OAccept DAccept [] true; OAccept DAccept [] true; OPeerClose 0] ++ [OPe]) in
